@@ -1199,7 +1199,10 @@ func (c *compiler) evalIndexCallee(rv reflect.Value, node *ast.IndexExpression) 
 	//If key doesn't contain "." this means we got person[0].Name[0]
 	//If key does contain "." then indexed field that needs to be accessed will be set in Node.left and Node.Callee
 	key := node.Left.String()
-	if strings.Contains(key, ".") {
+	if root := calleeRootName(node.Callee); root != "" {
+		// bind the element under exactly the name the callee chain will look up
+		key = root
+	} else if strings.Contains(key, ".") {
 		ggg := strings.Split(key, ".")
 		callee := node.Callee.String()
 
@@ -1228,6 +1231,29 @@ func (c *compiler) evalIndexCallee(rv reflect.Value, node *ast.IndexExpression) 
 	}
 
 	return vvs, nil
+}
+
+// calleeRootName returns the name of the identifier at the root of a callee
+// chain (the placeholder the parser attached for the indexed element).
+func calleeRootName(e ast.Expression) string {
+	switch t := e.(type) {
+	case *ast.Identifier:
+		if t == nil {
+			return ""
+		}
+		r := t
+		for r.Callee != nil {
+			r = r.Callee
+		}
+		return r.Value
+	case *ast.IndexExpression:
+		return calleeRootName(t.Left)
+	case *ast.CallExpression:
+		if t.Callee != nil {
+			return calleeRootName(t.Callee)
+		}
+	}
+	return ""
 }
 
 func unsafeGetBytes(s string) []byte {
